@@ -108,6 +108,45 @@ def check_axes(run, A):
             run.check(not bad, 'R-ELL', f'{short}: {cname.split(".")[-1].split(":")[-1]}(axis={v}) counts from the right', fn.loc(t.node), '',
                       f'`{norm_stmt(t.node)}`: a non-negative axis addresses a leading (independent) axis as soon as one is present', construct=f'R-ELL::{fn.qual}::axis::{cname}')
     run.floor('literal-axis / axis-less reductions examined', n, 25)
+    # the same for axis LENGTHS: x.shape[k] with k >= 0 (or the leading names of `K, *rest = x.shape`) reads a leading, independent axis as soon as one is present
+    from ..walk import shape_dim
+    m = 0
+    from ..terms import known_funcs
+
+    def flattened(x):
+        # a working array whose leading axes were merged on purpose: np.reshape(a, (-1, ...)) / a.reshape(-1, ...)
+        x = strip_views(x)
+        if is_call_to(x, 'numpy.reshape'):
+            shp = call_parts(x)[1][1:]
+            if len(shp) == 1 and shp[0].op in ('tuple', 'list') and shp[0].args[0]:
+                shp = shp[0].args[0]
+            elif len(shp) == 1 and shp[0].op == 'binop' and shp[0].args[0] == 'Add' and strip_views(shp[0].args[1]).op == 'tuple' and strip_views(shp[0].args[1]).args[0]:
+                shp = strip_views(shp[0].args[1]).args[0]          # (-1,) + shape[-2:]
+            return bool(shp) and const_val(shp[0]) == -1
+        return False
+    for fn in scope(A):
+        if fn.qual not in known_funcs():
+            continue          # helpers a later change introduced are analysed in place, in the graphs of their callers
+        g = A.graphs.get(fn)
+        short = fn.qual.split('::')[1]
+        seen = set()
+        for r_ in [g.ret] + [e.term for e in g.events if e.term is not None]:
+            for t in walk_terms(r_, seen):
+                if t.op == 'call':
+                    continue
+                sd = shape_dim(t)
+                if sd is not None and sd[1] >= 0 and flattened(sd[0]):
+                    m += 1
+                    continue
+                if sd is None or not any(x.op in ('param', 'free') or (x.op == 'attr' and x.args[0].op == 'param') for x in data_terms(sd[0])):
+                    continue
+                m += 1
+                if sd[1] < 0:
+                    continue
+                run.violation('R-ELL', f'{short}: axis length read from the left', fn.loc(t.node),
+                              f'`{norm_stmt(t.node)[:80]}`: position {sd[1]} counted from the left is a leading (independent) axis as soon as one is present; the core axes are the last ones',
+                              construct=f'R-ELL::{fn.qual}::shape-from-left')
+    run.floor('axis lengths read from data arrays', m, 52)
 
 
 def flatten_terms(g):
